@@ -264,6 +264,12 @@ func glueTyped(dir string) (*typedInfo, error) {
 	} else {
 		sb.WriteString("// SimWithServerURL: the package has no per-call override of the server URL through the context.\nvar SimWithServerURL any\n\n")
 	}
+	// the per-call request options (feature client/request/options): the four constructors, as an application would use them
+	if b, err := os.ReadFile(filepath.Join(dir, "oas_client_gen.go")); err == nil && strings.Contains(string(b), "\nfunc WithRequestClient(client ht.Client) RequestOption {") && strings.Contains(string(b), "\nfunc WithServerURL(u *url.URL) RequestOption {") && strings.Contains(string(b), "\nfunc WithEditRequest(fn func(req *http.Request) error) RequestOption {") && strings.Contains(string(b), "\nfunc WithEditResponse(fn func(resp *http.Response) error) RequestOption {") {
+		sb.WriteString("// SimReqOpts are the package's per-call request options: client, server URL, edit request, edit response.\nvar SimReqOpts = []any{WithRequestClient, WithServerURL, WithEditRequest, WithEditResponse}\n\n")
+	} else {
+		sb.WriteString("// SimReqOpts: the package has no per-call request options.\nvar SimReqOpts []any\n\n")
+	}
 	// the package's Labeler (custom attributes for the request metrics), as an application would use it
 	if b, err := os.ReadFile(filepath.Join(dir, "oas_labeler_gen.go")); err == nil && strings.Contains(string(b), "\nfunc LabelerFromContext(ctx context.Context) (*Labeler, bool) {") && strings.Contains(string(b), "\"go.opentelemetry.io/otel/attribute\"") {
 		imports["attribute"] = "go.opentelemetry.io/otel/attribute"
